@@ -540,6 +540,7 @@ func checkC05Rest(c *core.Ctx) {
 	payloadProgress(c, c.Rule("R5.10", "D", "a DecodingLayer hands the next one data[n:] with n >= 1 (= R1.6): DecodeLayers loops on LayerPayload(), so a zero advance never ends where NewPacket reports a layer sequence"))
 	crossFieldReset(c, c.Rule("R5.11", "T", "no slice field of the receiver is reset to a re-slice of a different field and then appended to"))
 	putRegistersEveryType(c, c.Rule("R5.12", "T", "every DecodingLayerContainer.Put registers the decoder for each of its layer types"))
+	terminalLayersLeaveNoPayload(c, c.Rule("R5.13", "T", "a layer whose registered decoder never chains publishes no payload from DecodeFromBytes"))
 	r9 := c.Rule("R5.9", "T", "DecodeFromBytes reads no integer/bool field of its receiver before storing it in the same call")
 	staleFieldReads(c, r9)
 
@@ -1395,5 +1396,88 @@ func putRegistersEveryType(c *core.Ctx, r *core.Rule) {
 	}
 	if n < 3 {
 		r.Missing("gopacket/DecodingLayerContainer.Put", fmt.Sprintf("only %d implementations found", n))
+	}
+}
+
+// terminalLayersLeaveNoPayload (R5.13): when the decoder registered for a
+// layer type never chains to a next decoder (NewPacket ends the packet with
+// that layer), the layer's DecodeFromBytes must not publish a payload: the
+// DecodingLayerParser loop goes on whenever LayerPayload() is non-empty (to
+// NextLayerType(), or to an "unsupported layer type" error), and then reports
+// a layer sequence NewPacket does not report.
+func terminalLayersLeaveNoPayload(c *core.Ctx, r *core.Rule) {
+	p := c.P
+	g := getDecGraph(p)
+	dld := p.Func("layers", "decodingLayerDecoder")
+	seen := map[*ssa.Function]bool{}
+	n := 0
+	var gls []*ssa.Global
+	for gl := range g.regDec {
+		gls = append(gls, gl)
+	}
+	sort.Slice(gls, func(i, j int) bool { return gls[i].Name() < gls[j].Name() })
+	for _, gl := range gls {
+		f := g.regDec[gl]
+		if f == nil || seen[f] || len(f.Blocks) == 0 {
+			continue
+		}
+		seen[f] = true
+		chains := false
+		var dfb *ssa.Function
+		core.Instrs(f, func(ins ssa.Instruction) {
+			cc := core.CallCommonOf(ins)
+			if cc == nil {
+				return
+			}
+			if isBuilderCall(ins, "NextDecoder") {
+				chains = true
+			}
+			callee := cc.StaticCallee()
+			if callee == nil {
+				if cc.IsInvoke() && cc.Method.Name() != "AddLayer" && cc.Method.Name() != "SetApplicationLayer" && cc.Method.Name() != "SetTruncated" && cc.Method.Name() != "SetTransportLayer" && cc.Method.Name() != "SetNetworkLayer" && cc.Method.Name() != "SetLinkLayer" && cc.Method.Name() != "SetErrorLayer" && cc.Method.Name() != "DecodeOptions" {
+					chains = true // unknown dynamic call: may chain
+				}
+				return
+			}
+			if callee == dld {
+				chains = true
+			}
+			if callee.Name() == "DecodeFromBytes" && callee.Signature.Recv() != nil {
+				dfb = callee
+			} else if builderParam(callee) != nil {
+				chains = true // another decoder-shaped function: may chain
+			}
+		})
+		if chains || dfb == nil || len(dfb.Blocks) == 0 {
+			continue
+		}
+		n++
+		// stores of a possibly non-empty payload in DecodeFromBytes
+		var bad ssa.Instruction
+		core.Instrs(dfb, func(ins ssa.Instruction) {
+			st, ok := ins.(*ssa.Store)
+			if !ok {
+				return
+			}
+			fa, ok := st.Addr.(*ssa.FieldAddr)
+			if !ok || core.FieldOfAddr(fa).Name() != "Payload" {
+				return
+			}
+			if core.IsNilConst(st.Val) {
+				return
+			}
+			// stored into the receiver's BaseLayer (directly or through a literal that is then stored into the receiver)
+			bad = ins
+		})
+		key := core.FnKey(dfb) + "/terminal-no-payload"
+		if bad == nil {
+			r.OK(key, p.Pos(dfb.Pos()), "the registered decoder does not chain and DecodeFromBytes publishes no payload")
+		} else {
+			r.Violate(key, p.InstrPos(bad), "the decoder registered for this layer ("+f.Name()+") never chains to a next decoder, but DecodeFromBytes publishes a payload here: a DecodingLayerParser goes on decoding that payload (or stops with an unsupported-layer error) where NewPacket ends the packet with this layer, so the two report different layer sequences", nil)
+		}
+	}
+	c.Counts["terminal_layers"] = n
+	if n < 3 {
+		r.Missing("layers/terminal layers", fmt.Sprintf("only %d found", n))
 	}
 }
